@@ -70,6 +70,32 @@ static void do_bool(const J& g, W& w) {
         w.kv("big_err", berr);
         free_polys(ba);
         free_polys(bb);
+        // once more on a power-of-two grid (2^34) with both operands mapped by (x, y) -> (x / 256, y - 40):
+        // every scaled x stays within 2^30 while every scaled y lies below -2^30 (the only coordinate
+        // that asks for wide arithmetic is a negative one), and edge products are multiples of 2^60, so
+        // that arithmetic wrapping at 64 bits would produce exact zeros; areas shrink by exactly 256
+        Array<Polygon*> A2 = {}, B2 = {};
+        mk_group(g["a"], A2);
+        mk_group(g["b"], B2);
+        for (Array<Polygon*>* G : {&A2, &B2})
+            for (uint64_t i = 0; i < G->count; i++)
+                for (uint64_t k = 0; k < (*G)[i]->point_array.count; k++) {
+                    Vec2& v = (*G)[i]->point_array[k];
+                    v = Vec2{v.x / 256.0, v.y - 40.0};
+                }
+        int64_t b2err = 0;
+        w.key("big2").begin_arr();
+        for (int k = 0; k < 4; k++) {
+            Array<Polygon*> res = {};
+            ErrorCode e = boolean(A2, B2, ops[k], 17179869184.0, res);
+            if (e != ErrorCode::NoError) b2err = (int64_t)e;
+            w.i((int64_t)llround(area_of(res) * 256000));
+            free_polys(res);
+        }
+        w.end_arr();
+        w.kv("big2_err", b2err);
+        free_polys(A2);
+        free_polys(B2);
     }
 }
 
